@@ -184,7 +184,7 @@ func createFilesInTar(info *nfpm.Info, tw *tar.Writer) ([]MtreeEntry, int64, err
 		case files.TypeDir, files.TypeImplicitDir:
 			entries = append(entries, MtreeEntry{
 				Destination: content.Destination,
-				Time:        content.ModTime().Unix(),
+				Time:        mtreeTime(content.ModTime()),
 				Mode:        int64(content.Mode()),
 				Type:        files.TypeDir,
 			})
@@ -212,7 +212,7 @@ func createFilesInTar(info *nfpm.Info, tw *tar.Writer) ([]MtreeEntry, int64, err
 			entries = append(entries, MtreeEntry{
 				LinkSource:  content.Source,
 				Destination: content.Destination,
-				Time:        content.ModTime().Unix(),
+				Time:        mtreeTime(content.ModTime()),
 				Mode:        0o777,
 				Type:        content.Type,
 			})
@@ -262,7 +262,7 @@ func createFilesInTar(info *nfpm.Info, tw *tar.Writer) ([]MtreeEntry, int64, err
 
 			entries = append(entries, MtreeEntry{
 				Destination: content.Destination,
-				Time:        content.ModTime().Unix(),
+				Time:        mtreeTime(content.ModTime()),
 				Mode:        int64(content.Mode()),
 				Size:        content.Size(),
 				Type:        content.Type,
@@ -275,6 +275,15 @@ func createFilesInTar(info *nfpm.Info, tw *tar.Writer) ([]MtreeEntry, int64, err
 	}
 
 	return entries, totalSize, nil
+}
+
+// mtreeTime returns the time the tar header of an entry stores: archive/tar
+// writes an unset (zero) modification time as the Unix epoch.
+func mtreeTime(t time.Time) int64 {
+	if t.IsZero() {
+		return 0
+	}
+	return t.Unix()
 }
 
 func defaultStr(s, def string) string {
